@@ -189,7 +189,10 @@ def corr_roundtrip(ctx, stats):
     pool = [0.0, 1.0, -1.0, 0.5, 2.0, 0.1, 1e-7, 1e22, -0.0, 0.1 + 0.2, 123456.789, 5e-324, 2.0 ** 53, 1 / 3]
     for i in range(ctx.n(300, 5000)):
         k = rng.random()
-        if k < 0.4: vals = (1.0, 0.0, 0.0, 1.0, rng.choice(pool), rng.choice(pool))
+        if k < 0.3: vals = (1.0, 0.0, 0.0, 1.0, rng.choice(pool), rng.choice(pool))
+        elif k < 0.4: vals = (1.0, rng.choice([0.5, -1.0, 0.1, 2.0]), 0.0, 1.0, rng.choice(pool), rng.choice(pool))          # unit diagonal, vertical shear
+        elif k < 0.5: vals = (1.0, 0.0, rng.choice([0.5, -1.0, 0.1, 2.0]), 1.0, rng.choice(pool), rng.choice(pool))          # unit diagonal, horizontal shear
+        elif k < 0.55: vals = (rng.choice([1.0, -1.0]), 0.0, 0.0, rng.choice([-1.0, 1.0]), rng.choice(pool), rng.choice(pool))  # flips
         else: vals = tuple(rng.choice(pool) if rng.random() < 0.7 else rng.uniform(-100, 100) for _ in range(6))
         A = Affine2D(*vals)
         s = A.tostring()
@@ -331,7 +334,7 @@ def search(ctx, broken, disagreements):
                     viol('transform attribute = product of its operations in order', {'string': s}, M, got); break
             if len(found) > 3: break
         if len(found) > 3: break
-    for vals in [(1.0, 0.0, 0.0, 1.0, 2.5, -3.0), (0.5, 0.1, -0.25, 2.0, 1e-7, 123456.789), (1.0, 0.0, 0.0, 1.0, 0.0, 0.0), (2.0, 0.0, 0.0, 2.0, 0.0, 0.0)]:
+    for vals in [(1.0, 0.0, 0.0, 1.0, 2.5, -3.0), (1.0, 0.5, 0.0, 1.0, 3.0, 4.0), (1.0, 0.0, -0.5, 1.0, 3.0, 4.0), (-1.0, 0.0, 0.0, 1.0, 3.0, 4.0), (0.5, 0.1, -0.25, 2.0, 1e-7, 123456.789), (1.0, 0.0, 0.0, 1.0, 0.0, 0.0), (2.0, 0.0, 0.0, 2.0, 0.0, 0.0)]:
         n += 1
         try: back = tuple(Affine2D.fromstring(Affine2D(*vals).tostring()))
         except Exception as ex: back = repr(ex)
